@@ -151,7 +151,8 @@ def root_units(ctx: Ctx, fq: str = "cirkit.templates.region_graph.graph.RegionGr
             if isinstance(up, ast.If) and any(cur is b for b in up.body):
                 if any(isinstance(x, ast.Name) and x.id == "PartitionNode" for x in ast.walk(up.test)):
                     partition = True
-                if mentions_outputs(up.test) and not (isinstance(up.test, ast.UnaryOp) and isinstance(up.test.op, ast.Not)):
+                tests_ = [up.test] + ([d for d in ld.defs.get(up.test.id, []) if isinstance(d, ast.expr)] if isinstance(up.test, ast.Name) else [])
+                if any(mentions_outputs(t_) for t_ in tests_) and not (isinstance(up.test, ast.UnaryOp) and isinstance(up.test.op, ast.Not)):
                     guarded = True
             cur = up
         if partition:
